@@ -31,12 +31,12 @@ def run(name, plist):
 
 
 def main():
-    ap = argparse.ArgumentParser(); ap.add_argument("--only", default=""); ap.add_argument("-v", action="store_true")
+    ap = argparse.ArgumentParser(); ap.add_argument("--only", default=""); ap.add_argument("--props", default=""); ap.add_argument("-v", action="store_true")
     a = ap.parse_args()
     names = sorted(os.listdir(os.path.join(HERE, "refactors")))
     if a.only:
         names = [n for n in names if n in a.only.split(",")]
-    plist = props()
+    plist = [p for p in props() if not a.props or p in a.props.split(",")]
     alarms = absts = 0
     with ThreadPoolExecutor(16) as ex:
         for name, res, err in ex.map(lambda n: run(n, plist), names):
